@@ -65,4 +65,15 @@ CLAIMED = {
   "text": "For every field value and payload length at once: NAL header, NAL unit, avcC record (reserved bits, counts, 16-bit lengths) and length-prefixed samples for all four length sizes are written exactly as ISO prescribes and are read back from that layout to the same fields with every index/slice proven in range. Counts above 2 follow from the per-iteration uniformity of the loop body (argued, not enumerated); payload bytes are opaque.",
   "note": "Layout tables are my transcription of ISO/IEC 14496-15 and 14496-10.",
  },
+
+ "C05": {
+  "technique": "bit-provenance abstract interpretation of encoders, decoders and Size() in one path (property counts 0..2, child kinds enumerated, child values abstract under the len(Marshal)=Size contract), repeated-key paths explored by forking on key equality",
+  "text": "For every scalar value and every string/key length at once: MarshalBinary yields exactly Size() bytes for all ten types; scalars are bit-exact both ways; each decoder accepts its own encoding in bounds and Size() afterwards equals the bytes consumed, including when keys repeat; the strict array count is the number of elements. Arbitrary trees follow level by level through the contract (induction argued, not mechanised).",
+  "note": "Containers are analysed with 0..2 properties and four child kinds; the loop bodies are the same SSA code for every iteration.",
+ },
+ "C06": {
+  "technique": "constant-table comparison, complete enumeration of the 256 marker bytes through the abstract interpreter, layout comparison against the transcribed AMF0 specification, call-graph reachability for the strict-array rule",
+  "text": "Marker constants equal the specification; all 256 marker bytes are enumerated (supported -> a value of that very marker, others -> error); every supported type's bytes equal the AMF0 layout in both directions. The strict array's keyed layout is a recorded known finding (tests pin it).",
+  "note": "Layout tables transcribed from amf0_spec_121207; an independent codec is not executed.",
+ },
 }
